@@ -393,7 +393,7 @@ def _eval_branch(env, t):
             env[d["l"]] = ("var", CF, "Break", [("var", v[1], v[2], v[3])])
 
 
-def thread_jumps(raw, max_chain=48, budget=96):
+def thread_jumps(raw, max_chain=48, budget=160):
     blocks = raw["blocks"]
     for _round in range(6):
         preds = {}
@@ -422,6 +422,16 @@ def thread_jumps(raw, max_chain=48, budget=96):
                         back.append(q)
                         if len(preds.get(q, [])) >= 2 and blocks[q].get("jt_clone") is None:
                             cands.append(q)
+        # blocks of inlined code that build a Result / Option / Poll literal themselves (`Err(e)?`, `return Ready(..)`): foldable in place
+        lits = []
+        for m in range(len(blocks)):
+            mb = blocks[m]
+            if mb.get("dead") or mb.get("cleanup") or mb.get("jt_done") or mb.get("jt_clone") is not None or not mb.get("inl_stack"):
+                continue
+            if any(s["k"] == "assign" and s["rv"]["k"] == "agg" and s["rv"].get("adt") in ("core::result::Result", "core::option::Option", "core::task::poll::Poll") and not s["pl"]["p"]
+                   for s in mb["stmts"]):
+                lits.append(m)
+
         def try_fold(m, env):
             chain, cur, ok, final = [], m, False, None
             folds = {}          # chain index of a folded switch -> chosen target
@@ -484,6 +494,26 @@ def thread_jumps(raw, max_chain=48, budget=96):
                 blocks.append(nb)
             return base if todo else final
 
+        for m in lits:
+            mb = blocks[m]
+            if mb.get("jt_done") or budget <= 0 or m in cands:
+                continue
+            r0 = try_fold(m, {})
+            if r0 is None:
+                continue
+            chain, folds, final, e2 = r0
+            budget -= 1
+            progress = True
+            mb["jt_done"] = True
+            if len(chain) == 1:
+                mb["term"] = {"k": "goto", "target": final, "span": mb["term"].get("span", ""), "jt_folded": True}
+                mb["jt_env"] = {str(l): v for l, v in e2.items()}
+            else:
+                nxt = emit(chain, folds, final, e2, True)
+                if 0 in folds:
+                    mb["term"] = {"k": "goto", "target": nxt, "span": mb["term"].get("span", ""), "jt_folded": True}
+                else:
+                    mb["term"]["target"] = nxt
         for m in cands:
             mb = blocks[m]
             if mb.get("jt_done"):
@@ -515,14 +545,20 @@ def thread_jumps(raw, max_chain=48, budget=96):
                     continue
                 env = {}
                 pre = [p]
-                while len(pre) < 5 and len(preds.get(pre[0], [])) == 1:
+                def _is_residual(t):
+                    return t["k"] == "call" and strip_generics(t.get("callee", "")) == "core::ops::try_trait::FromResidual::from_residual" and t.get("target") is not None
+                while len(pre) < 6 and len(preds.get(pre[0], [])) == 1:
                     q = preds[pre[0]][0]
-                    if q in pre or blocks[q].get("cleanup") or blocks[q]["term"]["k"] not in ("goto", "drop"):
+                    if q in pre or blocks[q].get("cleanup") or not (blocks[q]["term"]["k"] in ("goto", "drop") or _is_residual(blocks[q]["term"])):
                         break
                     pre.insert(0, q)
                 for q in pre:
                     for s in blocks[q]["stmts"]:
                         _eval_stmt(env, s)
+                    tq = blocks[q]["term"]
+                    if _is_residual(tq) and q != p and tq.get("dest") and not tq["dest"]["p"] and "Result<" in raw["locals"][tq["dest"]["l"]].get("ty", ""):
+                        # `Err(e)?` / `r?` on the failing edge: FromResidual for Result always yields Err
+                        env[tq["dest"]["l"]] = ("var", "core::result::Result", "Err", [None])
                 r1 = try_fold(m, env)
                 if r1 is None:
                     continue
